@@ -198,10 +198,9 @@ class Option(Evaluatable[A]):
         """
         if dotted_key_exists(self.key, options):
             value = get_dotted_key(self.key, options)
-            if isinstance(value, str):
-                return {self.key} | Template(value).keys(options)
-            else:
-                return {self.key}
+            return {self.key}.union(
+                *(Template(text).keys(options) for text in _templated_strings(value))
+            )
         elif self.default is not MISSING:
             return self.default.keys(options)
         else:
@@ -212,10 +211,12 @@ class Option(Evaluatable[A]):
         options = options or {}
         if dotted_key_exists(self.key, options):
             value = get_dotted_key(self.key, options)
-            if isinstance(value, str):
-                return {self.key} | Template(value).explain(options)
-            else:
-                return {self.key}
+            return {self.key}.union(
+                *(
+                    Template(text).explain(options)
+                    for text in _templated_strings(value)
+                )
+            )
         elif self.default is not MISSING:
             return self.default.explain(options)
         else:
@@ -338,6 +339,17 @@ class Option(Evaluatable[A]):
         new: Dict[str, JSON] = {}
         set_dotted_key(self.key, value, new)
         return mix(options, new)  # type: ignore
+
+
+def _templated_strings(value: JSON) -> List[str]:
+    """The strings inside an option value that resolve() treats as templates."""
+    if isinstance(value, str):
+        return [value]
+    if isinstance(value, Mapping):
+        return [text for item in value.values() for text in _templated_strings(item)]
+    if isinstance(value, list):
+        return [text for item in value for text in _templated_strings(item)]
+    return []
 
 
 class WithOptions(Evaluatable[B]):
